@@ -171,6 +171,10 @@ func (p *program) checkFile(f *ast.File) {
 	}
 	wg.Wait()
 
+	// A checker can report the very same thing twice (badRegexp does for two
+	// equal char classes in one pattern); print every warning once,
+	// like the go/analysis drivers do.
+	printed := make(map[string]bool)
 	for i, c := range p.checkers {
 		for _, warn := range warnings[i] {
 			p.foundIssues = true
@@ -178,7 +182,12 @@ func (p *program) checkFile(f *ast.File) {
 			if p.shorterErrLocation {
 				loc = p.shortenLocation(loc)
 			}
-			log.Printf("%s: %s: %s\n", loc, c.Info.Name, warn.Text)
+			line := fmt.Sprintf("%s: %s: %s", loc, c.Info.Name, warn.Text)
+			if printed[line] {
+				continue
+			}
+			printed[line] = true
+			log.Printf("%s\n", line)
 		}
 	}
 }
